@@ -41,8 +41,29 @@ pub fn vx_set_token_text(tokens: &mut Tokens, i: usize, s: String)
         final(tokens)@[i as int].0 == old(tokens)@[i as int].0, final(tokens)@[i as int].1@ == s@,
 { tokens[i].1 = s; }
 
+// tokens[i].0 = s  (IndexMut + field assignment)
+#[verifier::external_body]
+pub fn vx_set_token_tag(tokens: &mut Tokens, i: usize, s: String)
+    requires i < old(tokens)@.len()
+    ensures final(tokens)@.len() == old(tokens)@.len(),
+        forall|k: int| 0 <= k < old(tokens)@.len() && k != i ==> final(tokens)@[k] == old(tokens)@[k],
+        final(tokens)@[i as int].1 == old(tokens)@[i as int].1, final(tokens)@[i as int].0@ == s@,
+{ tokens[i].0 = s; }
+
 // ---- externals: regex-based helpers (uninterpreted) ----
 pub uninterp spec fn spec_env_in_token(t: Seq<char>) -> bool;
+pub open spec fn has_op(s: Seq<char>) -> bool { s.contains('|') || s.contains('&') || s.contains('<') || s.contains('>') }
+// which words expand_env may touch, and what one word may look like afterwards
+pub open spec fn env_elig(t: Token) -> bool { t.0@ != "`"@ && t.0@ != "'"@ && t.0@ != "\\"@ && spec_env_in_token(t.1@) }
+pub open spec fn env_tok_ok(o: Token, n: Token) -> bool {
+    &&& (!env_elig(o) ==> n.1@ == o.1@ && n.0@ == o.0@)
+    // the tag is kept, or an unquoted word into which the value brought an operator character becomes double-quoted
+    &&& (n.0@ == o.0@ || (o.0@.len() == 0 && n.0@ == "\""@ && !has_op(o.1@) && has_op(n.1@)))
+    // C13: an operator character in a word that is still unquoted was written there, it did not come from a value
+    &&& (n.0@.len() == 0 && has_op(n.1@) ==> has_op(o.1@))
+}
+pub open spec fn env_lo(b: Seq<(usize, String)>, m: int, n: int) -> int { if 0 <= m < b.len() { b[m].0 as int } else { n } }
+
 #[verifier::external_body]
 pub fn env_in_token(token: &str) -> (r: bool) ensures r == spec_env_in_token(token@) { unimplemented!() }
 // ---- regex + process environment for expand_one_env ----
@@ -185,6 +206,19 @@ pub proof fn lemma_aview_push(b: Seq<(usize, String)>)
 #[verifier::external_body]
 pub fn vx_parse_line_tokens(line: &str) -> (r: Tokens) ensures tsv(r@) == spec_parse_line_tokens(line@) { unimplemented!() }
 
+pub open spec fn alias_line(name: Seq<char>, value: Seq<char>, q: char) -> Seq<char> {
+    seq!['a', 'l', 'i', 'a', 's', ' '] + name + seq!['=', q] + value + seq![q]
+}
+pub proof fn lemma_alias_lits()
+    ensures "alias "@ == seq!['a', 'l', 'i', 'a', 's', ' '], "=\""@ == seq!['=', '"'], "\""@ == seq!['"'], "='"@ == seq!['=', '\''], "'"@ == seq!['\''],
+{
+    reveal_strlit("alias "); reveal_strlit("=\""); reveal_strlit("\""); reveal_strlit("='"); reveal_strlit("'");
+    assert("alias "@ =~= seq!['a', 'l', 'i', 'a', 's', ' ']); assert("=\""@ =~= seq!['=', '"']); assert("\""@ =~= seq!['"']);
+    assert("='"@ =~= seq!['=', '\'']); assert("'"@ =~= seq!['\'']);
+}
+pub proof fn lemma_quote_lit() ensures "\""@ == seq!['"'], "\""@.len() == 1 { reveal_strlit("\""); assert("\""@ =~= seq!['"']); }
+//@FN has_operator_char
+//@FN format_alias
 //@FN expand_one_env
 //@FN expand_alias
 //@FN expand_home
@@ -220,6 +254,13 @@ get_alias_content = Fn(S, 'get_alias_content', impl='Shell', pre_rewrites=HM, re
     ensures=[('C17.table.content',
               'match r { Some(v) => smap(self.aliases).contains_key(name@) && v@ == smap(self.aliases)[name@] && v@.len() > 0, '
               'None => !smap(self.aliases).contains_key(name@) || smap(self.aliases)[name@].len() == 0 }')])
+
+# the line `alias` prints for one definition: reading it back must define the same alias (C17): the value sits between two quote
+# characters of a kind that does not occur in it (when the value does not contain both kinds)
+format_alias = Fn('src/builtins/alias.rs', 'format_alias', ret='r', props=('C17',),
+    ensures=[('C17.listing.value_is_wrapped_in_a_quote_it_does_not_contain',
+              'r@ == alias_line(name@, value@, if value@.contains(\'\\\'\') { \'"\' } else { \'\\\'\' })')],
+    hints={'fn-entry': 'lemma_alias_lits();'})
 
 HME = [
     Rw(r'self\.envs\.get\(', 'vx_hm_get(&self.envs, ', regex=True, required=False, rule='R12', why='HashMap<String,String> op through a shim stated over string views'),
@@ -348,7 +389,32 @@ expand_home.hints = {'loop-0-body-entry': 'assert("~"@.len() == 1 && "~"@[0] == 
                                           '  assert forall|a: Seq<char>| #![trigger a.subrange(0, 1)] a.len() >= 1 implies (a.subrange(0, 1) == "~"@) == (a[0] == \'~\') by { '
                                           '    if a[0] == \'~\' { assert(a.subrange(0, 1) =~= "~"@); } else { assert(a.subrange(0, 1)[0] == a[0]); } } }'}
 
-expand_env = text_pass('expand_env', 'T.0@ != "`"@ && T.0@ != "\'"@ && T.0@ != "\\\\"@ && spec_env_in_token(T.1@)', 'C10+C13+C01', inner_dec='_token@.len()')
+# expand_env: which words may change, what happens to the tag, and (C13) that operator characters from a value become data
+expand_env = Fn(S, 'expand_env', rewrites=TYRW, props=('C10',),
+    pre_rewrites=[SETTXT, Rw(r'tokens\[\*i\]\.0 = (.*?);', r'vx_set_token_tag(tokens, *i, \1);', regex=True, rule='R12', required=False,
+                             why='IndexMut + tuple-field assignment through a shim (frame: only that token tag changes)')],
+    let_types={'buff': 'Vec<(usize, String)>'},
+    ensures=[('C10+C13+C01.expand_env.words_change_only_as_specified',
+              'final(tokens)@.len() == old(tokens)@.len() && forall|k: int| 0 <= k < old(tokens)@.len() ==> env_tok_ok(old(tokens)@[k], #[trigger] final(tokens)@[k])')],
+    loops={
+        0: Loop(invariant=[
+            ('C10+C13+C01.inv.expand_env.idx', 'idx == __i0 && tokens@ == old(tokens)@'),
+            ('C10+C13+C01.inv.expand_env.buff',
+             'forall|m: int| 0 <= m < buff@.len() ==> (#[trigger] buff@[m]).0 < __i0 && env_elig(tokens@[buff@[m].0 as int])'),
+            ('C10+C13.inv.expand_env.buff_increasing', 'forall|m: int, n: int| 0 <= m < n < buff@.len() ==> (#[trigger] buff@[m]).0 < (#[trigger] buff@[n]).0'),
+        ]),
+        1: Loop(decreases='_token@.len()'),
+        2: Loop(invariant=[
+            ('C10+C13+C01.inv.expand_env.frame',
+             'tokens@.len() == old(tokens)@.len() '
+             '&& (forall|k: int| 0 <= k < env_lo(buff@, __i2 as int, tokens@.len() as int) ==> (#[trigger] tokens@[k]).0@ == old(tokens)@[k].0@ && tokens@[k].1@ == old(tokens)@[k].1@) '
+             '&& (forall|k: int| env_lo(buff@, __i2 as int, tokens@.len() as int) <= k < tokens@.len() ==> env_tok_ok(old(tokens)@[k], #[trigger] tokens@[k]))'),
+            ('C10+C13+C01.inv.expand_env.buff2',
+             'forall|m: int| 0 <= m < buff@.len() ==> (#[trigger] buff@[m]).0 < tokens@.len() && env_elig(old(tokens)@[buff@[m].0 as int])'),
+            ('C10+C13.inv.expand_env.buff_increasing2', 'forall|m: int, n: int| 0 <= m < n < buff@.len() ==> (#[trigger] buff@[m]).0 < (#[trigger] buff@[n]).0'),
+        ]),
+    },
+    hints={'loop-2-body-entry': 'lemma_quote_lit();'})
 expand_env.props = ('C10',)
 
 PASSES = ['expand_alias(sh, tokens)', 'expand_home(tokens)', 'expand_env(sh, tokens)', 'expand_brace(tokens)', 'expand_glob(tokens)',
@@ -361,7 +427,7 @@ do_expansion = Fn(S, 'do_expansion', add_params='Tracked(tr): Tracked<&mut PassT
               'final(tr).t == old(tr).t || final(tr).t == old(tr).t + seq![0int, 1int, 2int, 3int, 4int, 5int, 6int]')],
 )
 
-UNIT = Unit('U-EXP2', TEMPLATE, fns=[add_alias, is_alias, remove_alias, get_alias_content, get_env, expand_one_env, expand_alias, expand_home, expand_env, do_expansion],
+UNIT = Unit('U-EXP2', TEMPLATE, fns=[common.has_operator_fn(), add_alias, is_alias, remove_alias, get_alias_content, get_env, format_alias, expand_one_env, expand_alias, expand_home, expand_env, do_expansion],
             types=[TypeItem('src/types.rs', 'struct', 'LineInfo'), TypeItem('src/types.rs', 'struct', 'Job'),
                    TypeItem('src/shell.rs', 'struct', 'Shell', rewrites=[Rw('types::Job', 'Job', rule='R0')])],
             props=('C17', 'C10', 'C12', 'C13', 'C01', 'C05'))
